@@ -1695,7 +1695,7 @@ fn check_accepted_attr(rep: &mut Report, case: &str, msg: &api::Attribute, a: &A
         }
         if let Some((which, detail)) = attr_invariant(sa) {
             broken = true;
-            let which = if via_unknown { "known-code-as-unknown" } else { which };
+            let which = if via_unknown && is_known_code(sa.code()) { "known-code-as-unknown" } else { which };
             viol(
                 rep,
                 format!("C17/invariant/{which}/{name}"),
@@ -1765,7 +1765,7 @@ fn check_accepted_attr(rep: &mut Report, case: &str, msg: &api::Attribute, a: &A
                     Wire::Fatal(e) => ("wire-rejected", format!("receiver answers {e}")),
                     Wire::Same => unreachable!(),
                 };
-                let which2 = if via_unknown { "known-code-as-unknown" } else { which };
+                let which2 = if via_unknown && is_known_code(a.code()) { "known-code-as-unknown" } else { which };
                 viol(
                     rep,
                     format!("C17/invariant/{which2}/{name}"),
@@ -2318,7 +2318,12 @@ fn build_corpus() -> Corpus {
     let mut seen_a: HashSet<Attribute> = HashSet::new();
     let mut seen_n: HashSet<(u32, Nlri)> = HashSet::new();
     let mut c = Corpus { attrs: Vec::new(), nlris: Vec::new(), frames_ok: 0, encode_failed: 0 };
-    for (_k, vals) in mkmsg::attr_kinds() {
+    for (k, vals) in mkmsg::attr_kinds() {
+        // AS4_* and unknown non-transitive attributes are consumed / discarded on receipt:
+        // the daemon never holds them, so they are not part of the round-trip quantifier
+        if mkmsg::attr_kind_fate(k) != mkmsg::AttrFate::Kept && mkmsg::attr_kind_fate(k) != mkmsg::AttrFate::KeptExtFlag {
+            continue;
+        }
         for v in vals {
             if seen_a.insert(v.clone()) {
                 c.attrs.push((attr_case(&v), v));
